@@ -83,6 +83,13 @@ def run(rep: common.Report, tier: str, seed: int, replay=None) -> int:
                 cur[names[-1]] = -(len(names) - 1) * (1.0 + rel)
                 expect_rejected(rep, "unbalanced currents", f"dev{di} rel={rel}",
                                 lambda out, cur=cur: solve(dev, out, terminal_currents=cur), td, f"a{n}"); n += 1
+            # the same gross imbalance stated at tiny current scales (the balance test sees dimensionless currents)
+            for amp, cu in ((1e-4, "uA"), (0.3, "nA"), (2e-3, "nA"), (5e-3, "pA")):
+                cur = {nm: amp for nm in names[:-1]}
+                cur[names[-1]] = -(len(names) - 1) * amp * 0.5
+                expect_rejected(rep, "unbalanced currents", f"dev{di} gross imbalance at {amp} {cu}",
+                                lambda out, cur=cur, cu=cu: solve(dev, out, opt_over={"current_units": cu}, terminal_currents=cur),
+                                td, f"a{n}"); n += 1
             expect_rejected(rep, "unknown terminal", f"dev{di}",
                             lambda out: solve(dev, out, terminal_currents={"nosuch": 1.0, names[0]: -1.0}), td, f"a{n}"); n += 1
             # time-dependent currents unbalanced at all times
@@ -219,7 +226,13 @@ def run(rep: common.Report, tier: str, seed: int, replay=None) -> int:
     for _ in range(300):
         m = rng.randint(2, 4)
         v = [Fraction(rng.randint(-50, 50), rng.choice([1, 2, 3, 7, 10])) for _ in range(m - 1)]
-        v.append(-sum(v) + rng.choice([0, 0, Fraction(1, 10 ** 6), Fraction(1, 10 ** 12), Fraction(1, 100)]) * rng.choice([1, -1]))
+        # imbalance relative to the size of the currents, and an overall scale: the test must be scale-relative
+        # (the currents reach it rescaled to dimensionless units, anything from 1e-12 to 1e6)
+        size = sum(abs(x) for x in v) or Fraction(1)
+        v.append(-sum(v) + size * rng.choice([0, 0, Fraction(1, 10 ** 3), Fraction(1, 10 ** 6), Fraction(1, 10 ** 8),
+                                               Fraction(1, 10 ** 10), Fraction(1, 10 ** 12), Fraction(1, 2)]) * rng.choice([1, -1]))
+        scale = Fraction(10) ** rng.randint(-12, 6)
+        v = [x * scale for x in v]
         cur_cases.append(v)
     from tdgl.solver.solver import validate_terminal_currents
     from types import SimpleNamespace
@@ -251,6 +264,10 @@ def run(rep: common.Report, tier: str, seed: int, replay=None) -> int:
         for v, a, b in zip(cur_cases, mc, cimpl):
             # rounding of the float sum may differ from the exact sum only below 1e-12 relative
             tot, sc = abs(sum(v)), sum(abs(x) for x in v)
+            if b == 1 and sc > 0 and tot * 10 ** 6 >= sc * Fraction(999, 1000):
+                rep.violation("validate_terminal_currents accepts currents unbalanced by one part in 1e6 or more",
+                              {"currents": [float(x) for x in v], "relative_imbalance": float(tot / sc)})
+                continue
             if a != b and not (sc > 0 and abs(float(tot) / float(sc) - 1e-9) < 1e-12):
                 ndis += 1
                 if ndis < 8:
